@@ -27,7 +27,16 @@ func main() {
 	verif := flag.String("verif", "/verif", "verification directory (tables, known findings, evidence)")
 	only := flag.String("only", "", "report only the obligation with this 'rule construct' key (replay)")
 	list := flag.Bool("list", false, "print every obligation")
+	gen := flag.String("gen-ref", "", "write ref/ximage_tables.json from this golang.org/x/image source tree and exit")
 	flag.Parse()
+	if *gen != "" {
+		if err := genRef(*gen, *verif+"/ref/ximage_tables.json"); err != nil {
+			fmt.Fprintln(os.Stderr, err)
+			os.Exit(2)
+		}
+		fmt.Println("wrote", *verif+"/ref/ximage_tables.json")
+		return
+	}
 	onlyKey = *only
 	if t := os.Getenv("VERIF_TIER"); t != "" && !isFlagSet("tier") {
 		*tier = t
